@@ -338,6 +338,9 @@ func c10langTables(w *bytes.Buffer) {
 	c10intLits(w, "File", "applyBuiltInNumFmt", "applyBuiltInInts")
 	c10strLits(w, "File", "applyBuiltInNumFmt", "applyBuiltInStrs")
 	c10intLits(w, "xlsxC", "getValueFrom", "getValueFromInts")
+	c10intLits(w, "numberFormat", "fractionHandler", "fractionHandlerInts")
+	c10intLits(w, "", "continuedFraction", "continuedFractionInts")
+	c10intLits(w, "", "newRat", "newRatInts")
 	// CultureName enumeration order
 	var cult []string
 	for _, f := range files {
